@@ -66,7 +66,8 @@ impl Prop for C01 {
         // at narrow widths (known finding): that atom is explored under Visual in its first context, one-line
         // layout, with no second option.
         units.retain(|u| {
-            let has = u.text.contains("macro m([$a:expr])") && u.cfg.get("indent_style") == Some("Visual");
+            let squeezed: String = u.text.chars().filter(|c| !c.is_whitespace()).collect();
+            let has = squeezed.contains("macrom([$a:expr])") && u.cfg.get("indent_style") == Some("Visual");
             !has || (u.key.contains("@fn/L0") && u.cfg.kv.len() == 1)
         });
         if thorough {
